@@ -339,8 +339,9 @@ def trusted_base(units):
     out = []
     for u in units:
         text = u.get('prelude', '')
+        code = re.sub(r'//[^\n]*', '', text)   # the hole scan reads code, not comments ("groups assume (specs/...)" is prose)
         for rx, fmt in TRUST_PATTERNS:
-            for m in re.finditer(rx, text):
+            for m in re.finditer(rx, code if 'PROOF HOLE' in fmt else text):
                 out.append('[%s] ' % u['name'] + fmt % ' '.join(m.group(1).split()))
         for k, v in u.get('fns', {}).items():
             if v.get('trusted'):
